@@ -320,6 +320,15 @@ def run(ctx):
                 v = rng.choice([b'', b''.join(gen.name(rng, 0, 3, gen.BORING_TYPES)), rc.enc_name(gen.name(rng, 0, 2, gen.BORING_TYPES)), gen.comp_value(rng, 8)])
                 comps.insert(rng.randint(0, len(comps)), rc.comp(t, v))
             ctx.event('component-typed-like-a-packet-element')
+        elif i % 9 == 4:
+            # type numbers next to / formerly used for the typed-number conventions (33-37 in an earlier revision, neighbours of
+            # 50..58), with values that are canonical numbers or not: printed and read as plain <type>=<value>
+            comps = list(comps)
+            for _ in range(rng.randint(1, 2)):
+                t = rng.choice([33, 34, 35, 36, 37, 31, 49, 51, 53, 55, 57, 59, 48, 60])
+                v = rng.choice([rc.enc_nni(rng.choice([0, 5, 255, 256, 70000])), gen.comp_value(rng, 8), b''])
+                comps.insert(rng.randint(0, len(comps)), rc.comp(t, v))
+            ctx.event('component-typed-next-to-the-number-conventions')
         check_name(ctx, comps)
         if i % 4 == 0:
             check_history(ctx, comps)
